@@ -44,6 +44,11 @@ def vocabulary():
     ui = lambda *a: E(S("unpack-iterable"), *a)
     return {
         "E": T("E"), "SE": T("SE"), "S": T("S"),
+        # a sub-form that compiles to nothing at all: no statements, no expression (an empty `do`, a `when` with no body, ...)
+        "0": T("0"), "(do)": lambda: E(S("do")),
+        "(. sym)": lambda: E(S("."), S("u_a")), "(None E)": lambda: E(S("None"), Tok("t", "E")), "(True)": lambda: E(S("True")),
+        "(nonlocal sym)": lambda: E(S("nonlocal"), S("u_name")), "(global sym)": lambda: E(S("global"), S("u_name")),
+        "(return)": lambda: E(S("return")), "(break)": lambda: E(S("break")),
         "sym": lambda: S("u_name"), "None": lambda: S("None"), "True": lambda: S("True"), "dotted": lambda: E(S("."), S("u_a"), S("u_b")),
         "kw": lambda: Keyword("u_kw"), "kw-empty": lambda: Keyword(""), "kw-as": lambda: Keyword("as"),
         "int": lambda: Integer(1), "float": lambda: Float(1.5), "str": lambda: String("s"), "bytes": lambda: Bytes(b"b"),
@@ -130,6 +135,19 @@ def _mk(task):
         return E(Symbol(unmangle(head), from_parser=True), *kids)
     if kind == "call":
         return E(*kids)
+    if kind == "msugar":
+        return E(E(S("."), S("None"), S("u_meth")), *kids)
+    if kind == "nested":
+        if head == "fn-body":
+            return E(S("fn"), List([]), *kids)
+        if head == "let-in-let-body":
+            return E(S("defn"), S("u_g"), List([]), E(S("let"), List([S("u_name"), Integer(1)]), E(S("let"), List([S("u_y"), Integer(2)]),
+                                                                                               E(S("while"), S("u_c"), *kids))))
+        if head == "while-body":
+            return E(S("while"), S("u_c"), *kids)
+        if head == "for-body":
+            return E(S("for"), List([S("u_i"), S("u_xs")]), *kids)
+        return E(S("do"), E(S("setv"), S("u_name"), Integer(1)), *kids)
     return {"list": List, "tuple": Tuple, "set": Set, "dict": Dict, "fstring": lambda k: FString(k),
             "fcomponent": lambda k: FString([FComponent(k)])}[head](kids)
 
@@ -200,8 +218,45 @@ def run(chk):
                                                              "[E]", "None")]
             for kinds in itertools.product(pool, repeat=n):
                 TASKS.append(("macro", h, kinds))
+    # heads whose smallest well-formed call has three arguments are exhausted at arity 3 in the quick tier too (otherwise only their
+    # rejection paths are checked there): `if` over the reduced pool, `chainc` over operands and comparison operators
+    p3 = ["E", "SE", "S", "sym", "kw", "[]", "#*E", "#**E", "annotate", "()", "int", "str", "None", "(else)", "_"]
+    voc.update({"op<": lambda: S("<"), "op-in": lambda: S("in"), "op-is-not": lambda: S("is-not"), "op-bad": lambda: S("+")})
+    if maxa < 3:
+        for kinds in itertools.product(p3, repeat=3):
+            TASKS.append(("macro", "if", kinds))
+    for kinds in itertools.product(["E", "SE", "S", "sym", "int", "#*E", "()"], ["op<", "op-in", "op-is-not", "op-bad", "sym", "E"], ["E", "SE", "S", "int", "#*E"]):
+        TASKS.append(("macro", "chainc", kinds))
+        for k4 in ("op<", "E"):
+            for k5 in ("E", "SE"):
+                TASKS.append(("macro", "chainc", kinds + (k4, k5)))
+    # clauses and bodies that compile to nothing, patterns with constant or one-part heads
+    voc.update({"(finally (do))": lambda: E(S("finally"), E(S("do"))), "(else (do))": lambda: E(S("else"), E(S("do"))),
+                "(except [] (do))": lambda: E(S("except"), List([]), E(S("do"))), "(finally 0)": lambda: E(S("finally"), Tok("t", "0")),
+                "(None int)": lambda: E(S("None"), Integer(1)), "(sym int)": lambda: E(S("u_C"), Integer(1)), "(| int)": lambda: E(S("|"), Integer(1)),
+                "[int #*sym]": lambda: List([Integer(1), E(S("unpack-iterable"), S("u_r"))]), "{str sym}": lambda: Dict([String("k"), S("u_v")]),
+                "(. sym sym)": lambda: E(S("."), S("u_a"), S("u_b")), ":if": lambda: Keyword("if"), ":do": lambda: Keyword("do"),
+                ":setv": lambda: Keyword("setv"), ":as": lambda: Keyword("as")})
+    for kinds in itertools.product(["E", "SE", "0"], ["(None int)", "(sym int)", "(. sym)", "(. sym sym)", "(| int)", "[int #*sym]", "{str sym}", "int", "sym", "_", "None",
+                                                      "(True)", "kw", "str", "0", "(do)"], ["E", "SE", "S", "0", "(do)"]):
+        TASKS.append(("macro", "match", kinds))
+        TASKS.append(("macro", "match", kinds[:2] + (":as", "sym") + kinds[2:]))
+        TASKS.append(("macro", "match", kinds[:2] + (":if", "E") + kinds[2:]))
+    for h in ("lfor", "sfor", "gfor", "dfor", "for"):
+        vals = [("E",), ("0",), ("(do)",), ("S",)] if h != "dfor" else [("E", "E"), ("0", "E"), ("E", "(do)"), ("S", "E")]
+        for it in ("E", "SE", "0", "(do)"):
+            for cl3 in ((), (":if", "E"), (":if", "(do)"), (":if", "0"), (":do", "(do)"), (":do", "S"), (":setv", "sym", "0"), (":setv", "sym", "(do)")):
+                for v in vals:
+                    if h == "for":
+                        voc.setdefault("[sym " + it + "]", (lambda it=it: List([S("u_i"), VOC[it]()])))
+                        TASKS.append(("macro", h, ("[sym " + it + "]",) + v))
+                        voc.setdefault("[sym E " + " ".join(cl3) + "]", (lambda cl3=cl3: List([S("u_i"), Tok("t", "E")] + [VOC[k]() for k in cl3])))
+                        TASKS.append(("macro", h, ("[sym E " + " ".join(cl3) + "]",) + v))
+                    else:
+                        TASKS.append(("macro", h, ("sym", it) + cl3 + v))
     # clause-structured heads get deeper argument lists over the clause vocabulary (also in the quick tier)
-    cl = ["E", "SE", "(else)", "(else0)", "(except)", "(except0)", "(except-named)", "(finally)", "(finally0)"]
+    cl = ["E", "SE", "(else)", "(else0)", "(except)", "(except0)", "(except-named)", "(finally)", "(finally0)", "(finally (do))", "(else (do))",
+          "(except [] (do))", "0"]
     for n in (3, 4):
         for kinds in itertools.product(cl, repeat=n):
             TASKS.append(("macro", "try", kinds))
@@ -213,6 +268,18 @@ def run(chk):
         for n in range(0, 3):
             for kinds in itertools.product(ks, repeat=n):
                 TASKS.append(("lit", lit, kinds))
+        for kinds in itertools.product(["E", "SE", "S", "0", "#*E", "#**E", "kw", "int", "sym"], repeat=3):
+            TASKS.append(("lit", lit, kinds))
+    # method-call sugar (.m obj args...) reads as ((. None m) obj args...): the object is the first non-keyword argument
+    for n in range(0, 4 if quick else 5):
+        for kinds in itertools.product(["E", "SE", "kw", "kw-empty", "#*E", "#**E", "sym", "0"], repeat=n):
+            TASKS.append(("msugar", None, kinds))
+    # nested two deep in non-macro positions and inside fn / let / while bodies: statements that must sit in a particular kind of scope
+    for outer in ("fn-body", "let-in-let-body", "while-body", "for-body", "module"):
+        for k in ("(nonlocal sym)", "(global sym)", "(return)", "(break)", "0", "(do)", "S", "E"):
+            TASKS.append(("nested", outer, (k,)))
+            TASKS.append(("nested", outer, (k, "E")))
+            TASKS.append(("nested", outer, ("sym", k)))
     for n in range(1, 3 if quick else 4):
         pool = ks if n <= 2 else ["E", "SE", "S", "sym", "kw", "kw-empty", "#*E", "#**E", "#*0", "annotate", "dotted", "()"]
         for kinds in itertools.product(pool, repeat=n):
@@ -249,7 +316,7 @@ def run(chk):
     per = {}
     for i, v, d in res:
         kind, head, kinds = TASKS[i]
-        key = f"wellformed/{kind}:{head or 'call'}/arity {len(kinds)}"
+        key = f"wellformed/{kind}:{head or ('call' if kind == 'call' else 'method-call sugar')}/arity {len(kinds)}"
         st = per.setdefault(key, [0, None, None])
         st[0] += 1
         if v.startswith("BAD") and st[1] is None:
@@ -262,6 +329,20 @@ def run(chk):
             except Exception as e:  # noqa: BLE001
                 rp = {"confirmed": False, "error": repr(e)}
         chk.ob(key, bad is None, "cpython-oracle", "arity_bounded", detail=bad or f"{n} child-kind vectors", replay=rp)
+    # vacuity: a head for which no vector ever compiles is only ever checked on its error path
+    okc = {}
+    for i, v, d in res:
+        kind, head, kinds = TASKS[i]
+        okc.setdefault(f"{kind}:{head or 'call'}", 0)
+        if v in ("ok-compiled", "ok-python-syntax-error"):
+            okc[f"{kind}:{head or 'call'}"] += 1
+    # heads that are only meaningful inside another form are errors on their own, by design
+    inner_only = {"macro:else", "macro:except", "macro:finally", "macro:hyx_exceptXasteriskX", "macro:unpack_mapping", "macro:unpack_iterable",
+                  "macro:unquote", "macro:unquote_splice"}
+    never = sorted(k for k, n_ in okc.items() if n_ == 0 and k not in inner_only)
+    chk.extra["heads_never_compiled"] = never
+    chk.ob("wellformed/vacuity: every head is compiled successfully for at least one vector of child kinds (not only rejected)", not never,
+           "cpython-oracle", "arity_bounded", detail=None if not never else "never accepted within the explored arities: " + ", ".join(never))
     chk.extra["distinct_failure_sites"] = [f"{k[0]} | {k[1]} | {k[2]} ({len(v)} vectors)" for k, v in sorted(bad_by_site.items())][:80]
     chk.fn("every macro in hy/core/result_macros.py and hy/core/macros.hy (live tables)", "hy/macros.py::pattern_macro, MacroExceptions",
            "hy/compiler.py::HyASTCompiler.compile, compile_expression, _compile_collect, _storeize, compile_dict, compile_fcomponent, hy_compile")
